@@ -436,16 +436,26 @@ pub fn apply_fault(w: &mut World, a: &Act, fail_at: Option<u32>) -> Outcome {
                 base_asset_limit: Uint128::new(*limit),
             };
             if native {
+                // driver convenience (single-deployment native worlds only): the first candidate is the amount the cw20
+                // deployment would pull; a candidate that is refused is followed by the next one, whatever the refusal's
+                // text, and the first success is the outcome. If every candidate is refused the outcome is the one of
+                // the first candidate that was not refused for its funds (else of the first), re-executed last so that
+                // the dispatch log belongs to it.
                 let cands = native_open_candidates(w, t, &va, *buy, *margin, *lev);
-                let mut last = None;
-                for f in cands {
-                    let o = w.exec_full(t, &eng, &msg, f, fail_at);
-                    if !is_funds_error(&o) {
+                let mut pick = None;
+                for (i, f) in cands.iter().enumerate() {
+                    let o = w.exec_full(t, &eng, &msg, *f, fail_at);
+                    if o.ok {
                         return o;
                     }
-                    last = Some(o);
+                    if pick.is_none() && !is_funds_error(&o) {
+                        pick = Some(i);
+                    }
+                    if cands.len() == 1 {
+                        return o;
+                    }
                 }
-                last.unwrap()
+                w.exec_full(t, &eng, &msg, cands[pick.unwrap_or(0)], fail_at)
             } else {
                 w.exec_full(t, &eng, &msg, 0, fail_at)
             }
